@@ -13,7 +13,7 @@ from . import core, eng, engcheck, tieb, tiec, c12gen, c12tri
 
 THEOREMS = ["twin_binary_iff_closure", "twin_ternary_iff_closure", "twin_other_relations_untouched", "twin_example",
             "provider_first_batch_contract_partial", "provider_merge_never_new",
-            "provider_f12_witness", "provider_f11_witness", "provider_f14_witness", "provider_f8_witness", "provider_f17_witness",
+            "provider_f12_witness", "provider_f11_witness", "provider_f14_witness", "provider_f8_witness", "provider_f17_repaired",
             "provider_f18_witness"]
 TRUSTED = ["Lean 4.33.0 kernel", "axioms: propext, Classical.choice, Quot.sound only (audited per theorem)",
            "statement: Props/C12.lean; Spec/TrClosure.lean (the closure rules as syntax = tools/vlib/eng.py closure_rules, ReflTrans)",
@@ -256,7 +256,7 @@ def known_b(c, twin, impl, inband):
     pan = [o for o in impl if o.startswith("panic")]
     if pan:
         if "assertion failed: total.is_empty()" in pan[0] and "F8" in cl: return ("F8", F_TEXT["F8"])
-        if "attempt to divide by zero" in pan[0] and "F17" in cl: return ("F17", F_TEXT["F17"])
+        # F17 (len_estimate dividing by zero) is repaired in the code: that panic is never a known finding again
         if "called `Option::unwrap()` on a `None` value" in pan[0] and "F18" in cl: return ("F18", F_TEXT["F18"])
         return None
     d = diffs_of(c.meta["g"], twin, c.meta["inp"], impl[-1])
